@@ -104,3 +104,24 @@ func VerifC13CoalesceObjects() {
 	}
 	zzverif.Assert(byNameEq(r, expr.Type, vals[first], types[first]), "coalesce-is-first-non-null-by-field-name")
 }
+
+// VerifC13CoalesceLazy: COALESCE(a0, a1 / a2) with a0 Int|NULL and a1, a2 arbitrary Ints: when a0
+// is not NULL the result is a0 and NO error, whatever a2 is (a later argument that would fail —
+// division by zero — is not what COALESCE returns); when a0 is NULL the result is a1 / a2, an
+// error exactly when a2 = 0.
+func VerifC13CoalesceLazy() {
+	setup()
+	types := []octosql.Type{vx.Nullable(tInt), tInt, tInt}
+	vals := []octosql.Value{vx.ValueOfType("a0", types[0], 1, 0), octosql.NewInt(zzverif.Int64("a1")), octosql.NewInt(zzverif.Int64("a2"))}
+	div := logical.NewFunctionExpression("/", []logical.Expression{logical.NewVariable(argName(1)), logical.NewVariable(argName(2))})
+	expr, oc := typecheck(logical.NewCoalesce([]logical.Expression{logical.NewVariable(argName(0)), div}), types)
+	zzverif.Assert(oc == tcOK, "typechecks")
+	r, err := eval(expr, types, vals)
+	zzverif.Reach("evaluated")
+	if vals[0].TypeID != octosql.TypeIDNull {
+		zzverif.Assert(err == nil, "first-non-null-argument-wins-without-error")
+		zzverif.Assert(scalarEq(r, vals[0]), "coalesce-is-first-non-null")
+		return
+	}
+	zzverif.Assert((err != nil) == (vals[2].Int == 0), "error-exactly-when-the-chosen-argument-fails")
+}
